@@ -6,8 +6,8 @@
    (the Exp-Golomb prefixes the 64-bit machine reads exactly). *)
 From V.lib Require Import Base.
 From V.c13 Require Import C13Spec C13Model.
-From V.c15 Require Import C15Model C15Spec C15Examples C15HevcModel C15HevcSpec C15HevcSliceExamples
-  C15TieBaseProofs C15TieAvcProofs C15TieHevcProofs C15TieMainProofs.
+From V.c15 Require Import C15Model C15Spec C15Examples C15HevcModel C15HevcSpec C15HevcExamples C15HevcSliceExamples
+  C15TieBaseProofs C15TieAvcProofs C15TieHevcProofs C15TieHevcSpsProofs C15TieMainProofs.
 
 (* for EVERY byte string raw (an unescaped NAL unit: header + RBSP, well formed or not), escaped by the
    emulation-prevention rule: the two instances return the same result (value, Err, or OutOfFuel) *)
@@ -39,6 +39,26 @@ Theorem C15_reader_tie_hevc_pps : forall raw spsmap,
   hparse_pps_er spsmap (escape raw) = hparse_pps_br spsmap (escape raw).
 Proof. exact tie_hevc_pps. Qed.
 Print Assumptions C15_reader_tie_hevc_pps.
+
+(* hsps_narrow: log2_max_pic_order_cnt_lsb_minus4 of every SPS in the map is at most 52 (standard: 12) *)
+Theorem C15_reader_tie_hevc_slice : forall raw spsmap ppsmap,
+  bytes_ok raw = true -> zrun_ok raw = true ->
+  (forall id s, spsmap id = Some s -> hsps_narrow s = true) ->
+  hparse_slice_er spsmap ppsmap (escape raw) = hparse_slice_br spsmap ppsmap (escape raw).
+Proof. exact tie_hevc_slice. Qed.
+Print Assumptions C15_reader_tie_hevc_slice.
+
+(* HEVC SPS: the Go parser reads palette predictor initialisers with BitDepth bits and
+   lt_ref_pic_poc_lsb_sps with log2_max_pic_order_cnt_lsb bits, both taken from the stream without a
+   range check (up to 263 bits); the machine reads up to 56 bits exactly.  Whenever the ideal-reader
+   instance returns an SPS with bit depths (minus 8) <= 48 and log2_max_poc_lsb_minus4 <= 52 (standard:
+   8 and 12), the EBSP-reader instance returns the same SPS. *)
+Theorem C15_reader_tie_hevc_sps : forall raw s,
+  bytes_ok raw = true -> zrun_ok raw = true ->
+  hparse_sps_br (escape raw) = Ok s -> hsps_depths_ok s = true ->
+  hparse_sps_er (escape raw) = Ok s.
+Proof. exact tie_hevc_sps. Qed.
+Print Assumptions C15_reader_tie_hevc_sps.
 
 (* a byte string with two emulation-prevention bytes to insert and a 40-bit zero run *)
 Example C15_reader_tie_hyps :
@@ -95,4 +115,28 @@ Print Assumptions C15_hevc_pps_er.
 Example C15_hevc_pps_er_hyps :
   hpps_valid ex_hpps_tiles = true /\ zrun_ok (hraw_pps ex_hpps_tiles) = true
   /\ hparse_pps_er (fun id => id =? 3) (hnalu_pps ex_hpps_tiles) = Ok (expected_hpps ex_hpps_tiles).
+Proof. vm_compute. repeat split; reflexivity. Qed.
+
+Theorem C15_hevc_sps_er : forall v,
+  hsps_valid v = true -> zrun_ok (hraw_sps v) = true ->
+  hparse_sps_er (hnalu_sps v) = Ok (expected_hsps v).
+Proof. exact hevc_sps_er. Qed.
+Print Assumptions C15_hevc_sps_er.
+
+Theorem C15_hevc_slice_er : forall spsmap ppsmap sp pp v,
+  hsps_valid sp = true -> hpps_valid pp = true -> hslice_valid sp pp v = true ->
+  ppsmap (sx_slice_pic_parameter_set_id v) = Some (expected_hpps pp) ->
+  spsmap (sx_pps_seq_parameter_set_id pp) = Some (expected_hsps sp) ->
+  zrun_ok (hraw_slice sp pp v) = true ->
+  (forall id s, spsmap id = Some s -> hsps_narrow s = true) ->
+  hparse_slice_er spsmap ppsmap (hnalu_slice sp pp v) = Ok (expected_hslice sp pp v).
+Proof. exact hevc_slice_er. Qed.
+Print Assumptions C15_hevc_slice_er.
+(* ex_hsps: 4 emulation-prevention bytes inserted (112 -> 116 bytes); the slice: 1 (48 -> 49) *)
+Example C15_hevc_er_hyps :
+  hsps_valid C15HevcExamples.ex_hsps = true /\ zrun_ok (hraw_sps C15HevcExamples.ex_hsps) = true
+  /\ lenN (hraw_sps C15HevcExamples.ex_hsps) = 112 /\ lenN (hnalu_sps C15HevcExamples.ex_hsps) = 116
+  /\ hsps_narrow (expected_hsps ex_hsps) = true
+  /\ zrun_ok (hraw_slice ex_hsps ex_hpps_b ex_hslice_b) = true
+  /\ lenN (hnalu_slice ex_hsps ex_hpps_b ex_hslice_b) = lenN (hraw_slice ex_hsps ex_hpps_b ex_hslice_b) + 1.
 Proof. vm_compute. repeat split; reflexivity. Qed.
